@@ -87,7 +87,11 @@ func resolveLoc(base, loc string) (string, bool) {
 }
 
 // BuildShadow replays the observation log through the shadow model.
-func BuildShadow(o *world.Obs) *Shadow {
+func BuildShadow(o *world.Obs) *Shadow { return buildShadow(o, nil) }
+
+// buildShadow: ignoreLoc lists exchanges whose Location/Content-Location fields are to be
+// ignored (used by C07's positive half for cross-origin references).
+func buildShadow(o *world.Obs, ignoreLoc map[int]bool) *Shadow {
 	sh := &Shadow{Dead: map[int]int64{}, DeadBy: map[int]int{}, entries: map[string][]*ShadowEntry{}}
 	if len(o.Sc.Faults) > 0 {
 		sh.Disabled = "store faults planned"
@@ -179,9 +183,20 @@ func BuildShadow(o *world.Obs) *Shadow {
 						target.Certain = false
 						target.Why = "Age carried over a 304"
 					}
-					merged := model.Merge304(cur.Header, c.RespHdr)
+					merged := model.Merge304(cur.Header, c.RespHdr, c.EndNs)
 					target.Versions = append(target.Versions, model.Version{Status: cur.Status, Header: merged, ReqNs: c.StartNs, RespNs: c.EndNs, Why: "304 s" + strconv.Itoa(c.Serial)})
 					target.Validated++
+					// a 304 may change the Vary field: the variant is then keyed by the
+					// validating request's values of the newly nominated fields
+					if len(c.RespHdr.Values("Vary")) > 0 {
+						fields, star := model.VaryFields(merged.Values("Vary"))
+						target.Fields = fields
+						target.ReqHeader = h
+						if star {
+							target.Certain = false
+							target.Why = "Vary: * after 304"
+						}
+					}
 					continue
 				}
 				// full reply
@@ -237,7 +252,7 @@ func BuildShadow(o *world.Obs) *Shadow {
 		}
 		delete(sh.entries, nf)
 		for _, c := range o.CallsOf(ex.Idx) {
-			if c.Kind != "resp" {
+			if c.Kind != "resp" || ignoreLoc[ex.Idx] {
 				continue
 			}
 			for _, k := range []string{"Location", "Content-Location"} {
